@@ -15,6 +15,16 @@ between left a zero-byte .sfm, and the open segment — with ALL its earlier, co
 Statement 1 was therefore false (`crash_prefix_safe_counterexample_old`, about the `…Old` step lists, which are
 kept only for this theorem; the crash suite had replayed it on the real code).  Since the repair (write
 `<segkey>.sfm.tmp`, Sync, rename onto `<segkey>.sfm`) statement 1 holds at full strength (`crash_prefix_safe`).
+
+Later findings, all about the flush IN PROGRESS at the crash (its block summary is appended before the running .sfm
+is replaced, and the restart serves every block summary it finds), all repaired; the old behaviour is kept in
+explicitly named `…Old` definitions with their counterexample theorems:
+ * the adopted record was the older .sfm as it is (`metasOld`): the events of the flush in progress came back without
+   the columns that flush had introduced (`served_columns_advertised_counterexample_old`) — now the adopted record
+   is made to cover the block summaries (`reconciled`), `served_columns_advertised` holds at full strength;
+ * a record search never returned when a served block straddled the advertised start of its segment (`answerOld`,
+   `search_terminates_counterexample_old`) — now fetchRRCs hands out what it kept back once the last blocks are
+   read: `search_terminates` at full strength, and with the reconciled records `search_keeps_nothing_back`.
 -/
 import SigModel.Model.Crash
 import SigModel.Model.CrashMeta
@@ -120,6 +130,21 @@ theorem meta_sound (evs : Evs) (hpos : PosTs evs) (h : Hist) (k : Nat) :
     exact hpos g x hg
   exact SigModel.Lemmas.C07.ofEvents_covers hall e (List.mem_flatMap.2 ⟨f, hfp, he⟩)
 
+/-- C07.5, full strength for EVERYTHING a restart serves (since `readSegFullMetaFileAndPopulate` makes the adopted
+record cover the block summaries): every record the restarted node holds covers every event of every block it
+serves from that segment — the flush in progress included. -/
+theorem meta_sound_served (evs : Evs) (hpos : PosTs evs) (h : Hist) (k : Nat) :
+    ∀ p ∈ metas (crashAfter h k), ∀ f ∈ segVisible ((crashAfter h k).seg p.1),
+      f ∈ p.2 ∧ ∀ e ∈ evs f, (metaOf evs p.2).covers e := by
+  intro p hp f hf
+  have hfp := SigModel.Lemmas.C07.crashAfter_provAll h k p hp f hf
+  refine ⟨hfp, fun e he => ?_⟩
+  have hall : ∀ x ∈ evsOf evs p.2, 0 < x.ts := by
+    intro x hx
+    rcases List.mem_flatMap.1 hx with ⟨g, _, hg⟩
+    exact hpos g x hg
+  exact SigModel.Lemmas.C07.ofEvents_covers hall e (List.mem_flatMap.2 ⟨f, hfp, he⟩)
+
 /-- C07.6 every event of a completed flush is SEARCHABLE after the crash: whatever the time window and column
 condition of the search, an event of a completed flush that satisfies them is returned — the segment is not pruned
 by its advertised time range, the block is not pruned by its summary.  All histories, all crash points, all
@@ -128,10 +153,26 @@ theorem time_search_complete (evs : Evs) (hpos : PosTs evs) (h : Hist) (k : Nat)
     ∀ f ∈ completed h k, ∀ e ∈ evs f, evPass q e = true → e ∈ search evs (crashAfter h k) q := by
   intro f hf e he hq
   rcases meta_sound evs hpos h k f hf with ⟨p, hp, hv, _, hc, _⟩
-  unfold search searchWith
+  unfold search searchWith searchOn
   refine List.mem_flatMap.2 ⟨f, ?_, List.mem_filter.2 ⟨he, hq⟩⟩
   have hb := SigModel.Lemmas.C07.ofEvents_covers (fun x hx => hpos f x hx) e he
-  exact SigModel.Lemmas.C07.mem_searchFlushesWith_of hp
+  exact SigModel.Lemmas.C07.mem_searchFlushesOn_of hp
+    (SigModel.Lemmas.C07.rangePass_of_covers (hc e he) hq) hv
+    (SigModel.Lemmas.C07.rangePass_of_covers hb hq) (hc e he).1 (hc e he).2.1 hb.2.1
+
+/-- C07.6 for the flush in progress: it is ALL visible or ALL invisible, for every search alike — as soon as the
+restart serves one of its blocks (the all-time match-all shows it), every search returns every event of the block
+that satisfies it. -/
+theorem served_is_searchable (evs : Evs) (hpos : PosTs evs) (h : Hist) (k : Nat) (q : Query) :
+    ∀ f ∈ visible (crashAfter h k), ∀ e ∈ evs f, evPass q e = true → e ∈ search evs (crashAfter h k) q := by
+  intro f hf e he hq
+  rw [SigModel.Lemmas.C07.visible_eq_metas] at hf
+  rcases List.mem_flatMap.1 hf with ⟨p, hp, hv⟩
+  have hc := (meta_sound_served evs hpos h k p hp f hv).2
+  unfold search searchWith searchOn
+  refine List.mem_flatMap.2 ⟨f, ?_, List.mem_filter.2 ⟨he, hq⟩⟩
+  have hb := SigModel.Lemmas.C07.ofEvents_covers (fun x hx => hpos f x hx) e he
+  exact SigModel.Lemmas.C07.mem_searchFlushesOn_of hp
     (SigModel.Lemmas.C07.rangePass_of_covers (hc e he) hq) hv
     (SigModel.Lemmas.C07.rangePass_of_covers hb hq) (hc e he).1 (hc e he).2.1 hb.2.1
 
@@ -179,47 +220,73 @@ example : (search cexEvs (crashAfter cexHist 15) ⟨59000, 61000, none⟩).map (
     metaOf cexEvs [0, 1] = { lo := 1000, hi := 60000, recs := 2, cols := ["a", "a"] } ∧
     metaOfCachedRange cexEvs [0, 1] = { lo := 1000, hi := 1000, recs := 2, cols := ["a", "a"] } := by decide
 
-/-- full strength for the CONTENT of what is served: every event a restart serves has all its columns in the
-column set its segment advertises (the record reader reads the advertised columns only) -/
-def ServedColumnsAdvertised : Prop :=
-  ∀ (evs : Evs) (h : Hist) (k : Nat), ∀ p ∈ metas (crashAfter h k), ∀ f ∈ segVisible ((crashAfter h k).seg p.1),
+/-! ### content of what is served -/
+
+/-- C07.8, full strength for the CONTENT of what is served: every event a restart serves — of a completed flush or
+of the flush in progress — has all its columns in the column set its segment advertises (the record reader reads the
+advertised columns only, so nothing comes back with a field missing).  All histories, all crash points. -/
+theorem served_columns_advertised (evs : Evs) (h : Hist) (k : Nat) :
+    ∀ p ∈ metas (crashAfter h k), ∀ f ∈ segVisible ((crashAfter h k).seg p.1),
+      ∀ e ∈ evs f, ∀ c ∈ e.cols, c ∈ (metaOf evs p.2).cols := by
+  intro p hp f hf e he c hc
+  have hfp := SigModel.Lemmas.C07.crashAfter_provAll h k p hp f hf
+  exact SigModel.Lemmas.C07.ofEvents_cols e (List.mem_flatMap.2 ⟨f, hfp, he⟩) c hc
+
+/-- the same statement about the records BEFORE the repair of `readSegFullMetaFileAndPopulate` (`metasOld`: the
+adopted record is the .sfm as it is) -/
+def ServedColumnsAdvertisedOld : Prop :=
+  ∀ (evs : Evs) (h : Hist) (k : Nat), ∀ p ∈ metasOld (crashAfter h k), ∀ f ∈ segVisible ((crashAfter h k).seg p.1),
     ∀ e ∈ evs f, ∀ c ∈ e.cols, c ∈ (metaOf evs p.2).cols
 
 /-- the second flush brings a column the first one did not have -/
 def cexEvsCol : Evs := fun f => if f = 0 then [⟨1, 1000, ["a"]⟩] else if f = 1 then [⟨2, 60000, ["a", "c1"]⟩] else []
 
-/-- … which the code violates for the flush IN PROGRESS: its block summary is written (step 11) before the running
-.sfm names the new column (step 15), and the restart reads every block summary present; in between the event of the
-flush in progress is served without its new column (replayed on the real code: crash/inflight-new-column-dropped) -/
-theorem served_columns_advertised_counterexample : ¬ ServedColumnsAdvertised := by
+/-- … which was false for the flush IN PROGRESS: its block summary is written (step 11) before the running .sfm names
+the new column (step 15), and the restart reads every block summary present; in between the event of the flush in
+progress was served without its new column (replayed on the real code: crash/inflight-new-column-dropped) -/
+theorem served_columns_advertised_counterexample_old : ¬ ServedColumnsAdvertisedOld := by
   intro H
   have := H cexEvsCol cexHist 11 (0, [0]) (by decide) 1 (by decide) ⟨2, 60000, ["a", "c1"]⟩ (by decide) "c1" (by decide)
   revert this
   decide
 
-/-- … and keeps for every COMPLETED flush (guard: `f ∈ completed h k`; satisfiable: see the examples above): it is
-served from a segment whose advertised column set contains every column of every one of its events -/
-theorem served_columns_advertised_partial (evs : Evs) (hpos : PosTs evs) (h : Hist) (k : Nat) :
-    ∀ f ∈ completed h k, ∃ p ∈ metas (crashAfter h k), f ∈ segVisible ((crashAfter h k).seg p.1) ∧
-      ∀ e ∈ evs f, ∀ c ∈ e.cols, c ∈ (metaOf evs p.2).cols := by
-  intro f hf
-  rcases meta_sound evs hpos h k f hf with ⟨p, hp, hv, _, hc, _⟩
-  exact ⟨p, hp, hv, fun e he => (hc e he).2.2⟩
+/-- the same cut now: the adopted record is built from both blocks -/
+example : metas (crashAfter cexHist 11) = [(0, [0, 1])] ∧ metasOld (crashAfter cexHist 11) = [(0, [0])] := by decide
 
-/-- full strength for "queries return": no record search after a restart is left with a record it has read but can
-never hand out — i.e. every search terminates (`stuck`: Model/CrashMeta.lean, the record searcher's rounds) -/
-def SearchTerminates : Prop :=
-  ∀ (evs : Evs), PosTs evs → ∀ (h : Hist) (k : Nat) (q : Query), stuck evs (crashAfter h k) q = []
+/-! ### every search returns -/
+
+/-- C07.9, full strength for "queries return": every record search of the restarted node terminates with an answer
+(`answer`: once every segment has given its blocks, fetchRRCs hands out whatever it kept back).  All histories, all
+crash points, all queries, whatever the records advertise. -/
+theorem search_terminates (evs : Evs) (h : Hist) (k : Nat) (q : Query) :
+    (answer evs (crashAfter h k) q).isSome = true := rfl
+
+/-- … and with the records the restart now adopts nothing is kept back to the end in the first place: every record
+a search finds lies at or above the advertised start of its segment, hence at or above the last cut-off. -/
+theorem search_keeps_nothing_back (evs : Evs) (hpos : PosTs evs) (h : Hist) (k : Nat) (q : Query) :
+    keptBack evs (crashAfter h k) q = [] := by
+  apply SigModel.Lemmas.C07.keptBackOn_nil_of
+  intro e he
+  unfold searchOn at he
+  rcases List.mem_flatMap.1 he with ⟨f, hf, hef⟩
+  have hev : e ∈ evs f := (List.mem_filter.1 hef).1
+  rcases SigModel.Lemmas.C07.mem_searchFlushesOn_elim hf with ⟨p, hp, hr, hv⟩
+  exact ⟨p, hp, hr, ((meta_sound_served evs hpos h k p hp f hv).2 e hev).1⟩
+
+/-- the same statement about the code BEFORE the two repairs (`answerOld`: records as the .sfm had them, nothing
+handed out after the last round) -/
+def SearchTerminatesOld : Prop :=
+  ∀ (evs : Evs), PosTs evs → ∀ (h : Hist) (k : Nat) (q : Query), (answerOld evs (crashAfter h k) q).isSome = true
 
 /-- the flush in progress holds two batches: one older and one newer than everything the first flush held -/
 def cexEvsStraddle : Evs := fun f =>
   if f = 0 then [⟨1, 50001, ["a"]⟩] else if f = 1 then [⟨2, 30004, ["a"]⟩, ⟨3, 60007, ["a"]⟩] else []
 
-/-- … which the code violates while a flush is in progress: the block summary of the second flush is on disk
-(step 11), the running .sfm still advertises [50001, 50001]; the block reaches the cut-off (its HighTs 60007 ≥ 50001)
-and is read, its record at 30004 lies below the last cut-off and is never handed out — the all-time search never
-returns (replayed on the real code: crash/query-never-returns) -/
-theorem search_terminates_counterexample : ¬ SearchTerminates := by
+/-- … which was false while a flush was in progress: the block summary of the second flush is on disk (step 11), the
+running .sfm still advertises [50001, 50001]; the block reaches the cut-off (its HighTs 60007 ≥ 50001) and is read,
+its record at 30004 lies below the last cut-off and was never handed out — the all-time search never returned
+(replayed on the real code: crash/query-never-returns) -/
+theorem search_terminates_counterexample_old : ¬ SearchTerminatesOld := by
   intro H
   have hpos : PosTs cexEvsStraddle := by
     intro f e he
@@ -233,29 +300,9 @@ theorem search_terminates_counterexample : ¬ SearchTerminates := by
   revert this
   decide
 
-/-- … and keeps whenever no flush was in progress at the crash (guard: `inflight h k = none`; satisfiable: every
-command boundary, e.g. `inflight cexHist 15 = none`): every record a search finds lies at or above the advertised
-start of its segment, hence at or above the last cut-off — every search of every window terminates. -/
-theorem search_terminates_partial (evs : Evs) (hpos : PosTs evs) (h : Hist) (k : Nat) (q : Query)
-    (hg : inflight h k = none) : stuck evs (crashAfter h k) q = [] := by
-  apply SigModel.Lemmas.C07.stuckWith_nil_of
-  intro e he
-  unfold searchWith at he
-  rcases List.mem_flatMap.1 he with ⟨f, hf, hef⟩
-  have hev : e ∈ evs f := (List.mem_filter.1 hef).1
-  rcases SigModel.Lemmas.C07.mem_searchFlushesWith_elim hf with ⟨p', hp', hr', hv'⟩
-  have hcomp : f ∈ completed h k := by
-    rcases (time_search_exactly_once evs h k q).2 f hf with hc | hc
-    · exact hc
-    · rw [hg] at hc; cases hc
-  rcases meta_sound evs hpos h k f hcomp with ⟨p, hp, hv, _, hc, _⟩
-  have hnd : ((metas (crashAfter h k)).flatMap (fun p => segVisible ((crashAfter h k).seg p.1))).Nodup := by
-    rw [← SigModel.Lemmas.C07.visible_eq_metas]; exact (crash_prefix_safe h k).2
-  have hpp : p' = p := SigModel.Lemmas.C07.nodup_flatMap_unique hnd hp' hp hv' hv
-  subst hpp
-  exact ⟨p', hp', hr', (hc e hev).1⟩
-
-example : inflight cexHist 15 = none := by decide
+/-- the same cut now: the search answers, with all three events -/
+example : (answer cexEvsStraddle (crashAfter cexHist 11) ⟨1, 100000, none⟩).map (fun r => r.map (·.id)) = some [1, 2, 3] := by
+  decide
 
 /-- `PosTs` is needed in the MODEL of the per-record rule (0 = "no record yet"): a record with timestamp 0 followed
 by a later one leaves a range that misses the first — which is why ingest must never store 0 -/
